@@ -205,7 +205,10 @@ pub async fn scenario() {
 	};
 	let n_conns = rt::draw_range("n_conns", 1, 2);
 	let http_over_stream = rt::chance("http_over_stream", 1, 4);
-	let mut world = World::new(SrvCfg { entry, buf_cap, frag, ..Default::default() });
+	// server pings (1 s, inactivity limit 2 s, hook H6): a peer that answers pings but is otherwise idle for a while is
+	// alive, and the connection has to keep serving it
+	let ping_mode = rt::chance("ping_mode", 1, 6);
+	let mut world = World::new(SrvCfg { entry, buf_cap, frag, ping: ping_mode, ..Default::default() });
 	world.start().await;
 	let mut all: Vec<Vec<Sent>> = Vec::new();
 	let mut nonce = 100u64;
@@ -239,7 +242,7 @@ pub async fn scenario() {
 		v.push(Sent { cls: classify(&s), bytes: s, quirk_expect: None });
 		all.push(v);
 	}
-	rt::event("plan", format!("entry={entry:?} buf_cap={buf_cap} frag={frag:?} conns={n_conns} http_over_stream={http_over_stream} msgs={:?}", all.iter().map(|v| v.iter().map(|s| String::from_utf8_lossy(&s.bytes).chars().take(160).collect::<String>()).collect::<Vec<_>>()).collect::<Vec<_>>()));
+	rt::event("plan", format!("entry={entry:?} ping_mode={ping_mode} buf_cap={buf_cap} frag={frag:?} conns={n_conns} http_over_stream={http_over_stream} msgs={:?}", all.iter().map(|v| v.iter().map(|s| String::from_utf8_lossy(&s.bytes).chars().take(160).collect::<String>()).collect::<Vec<_>>()).collect::<Vec<_>>()));
 
 	// ---------------- WebSocket: pipelined ----------------
 	let mut tasks = Vec::new();
@@ -266,7 +269,12 @@ pub async fn scenario() {
 					}
 					rt::event("ws-reader-eof", "");
 				});
-				for m in &msgs {
+				for (mi, m) in msgs.iter().enumerate() {
+					if ping_mode && mi + 1 == msgs.len() {
+						// idle (but ponging) for longer than the inactivity limit before the sentinel
+						rt::probe("idle_stretch_with_pings");
+						tokio::time::sleep(Duration::from_millis(3500)).await;
+					}
 					rt::yield_n(rt::draw("think", 3)).await;
 					if rt::chance("think_ms", 1, 6) {
 						tokio::time::sleep(Duration::from_millis(rt::draw_range("ms", 1, 30) as u64)).await;
@@ -278,8 +286,12 @@ pub async fn scenario() {
 						break;
 					}
 				}
-				// everything answered?
-				rt::quiesce().await;
+				// everything answered? (with pings on the timers never end: a span longer than any handler takes)
+				if ping_mode {
+					tokio::time::sleep(Duration::from_secs(4)).await;
+				} else {
+					rt::quiesce().await;
+				}
 				let _ = tx.close().await;
 				drop(tx);
 				let _ = tokio::time::timeout(Duration::from_secs(5), reader).await;
